@@ -219,4 +219,30 @@ fn build_passes_options(this: HybridCacheBuilderPhaseStorage, memory: MemoryT, s
 }
 //@end
 
+
+// ---- the flush buffer (C15: "provided the resident set fits the configured flush buffer"): every flusher's batch buffer is
+// its equal share of the configured buffer pool, rounded down to whole pages -- not less
+pub struct EngineCfgT { pub buffer_pool_size: usize, pub flushers: usize }
+//@region foyer-storage/src/engine/block/engine.rs :: impl~^impl<K, V, P> BlockEngineConfig<K, V, P>/fn build name=engine_flush_buffer start=/let io_buffer_size = / stmts=1 sub=@self\.@this.@
+//@head
+fn engine_flush_buffer(this: &EngineCfgT) -> (r: usize)
+    requires this.flushers > 0,
+    ensures r == this.buffer_pool_size / this.flushers, // @label every_flusher_gets_its_equal_share_of_the_configured_buffer_pool
+//@tail
+    io_buffer_size
+//@end
+pub const PAGE: usize = 4096;
+pub mod bits {
+    use vstd::prelude::*;
+    #[verifier::external_body]
+    pub fn align_down(align: usize, v: usize) -> (r: usize) requires align == 4096, ensures r == (v / 4096) * 4096 { unimplemented!() }
+}
+//@region foyer-storage/src/engine/block/flusher.rs :: impl~^impl<K, V, P> Flusher<K, V, P>/fn run name=flusher_batch_buffer start=/let io_buffer_size = bits::align_down/ stmts=1
+//@head
+fn flusher_batch_buffer(io_buffer_size: usize) -> (r: usize)
+    ensures r == (io_buffer_size / 4096) * 4096, // @label the_batch_buffer_is_the_given_share_rounded_down_to_whole_pages
+//@tail
+    io_buffer_size
+//@end
+
 } // verus!
